@@ -279,7 +279,46 @@ func (s *sliceIt) CurrentPos() records.IteratorPos { return s.i }
 type store struct {
 	srv   *Server
 	parts map[string]string // key of the event list -> partition tags
+	unf   map[string][]int  // partition tags -> the unfiltered result (SELECT FROM {p} without WHERE), as indexes of the written events
 	n     int
+}
+
+// unfiltered: what SELECT FROM {tags} LIMIT 10000 (no WHERE, no RANGE) returns, as indexes into evs; asked once per partition.
+// The property compares a SELECT with WHERE e against the events of THIS result for which e is true.
+func (st *store) unfiltered(tags string, evs []Ev) ([]int, error) {
+	if u, ok := st.unf[tags]; ok {
+		return u, nil
+	}
+	byId := map[string]int{}
+	for i, e := range evs {
+		byId[fmt.Sprintf("%d|%s", e.Ts, e.Msg)] = i
+	}
+	var res *api.QueryResult
+	var qerr error
+	q := "SELECT FROM {" + tags + "} LIMIT 10000"
+	if guarded(func() {
+		res, qerr = st.srv.Querier.Query(context.Background(), &api.QueryRequest{Query: q, Limit: 10000})
+	}) {
+		return nil, fmt.Errorf("%s panics", q)
+	}
+	if qerr != nil && qerr != io.EOF {
+		return nil, fmt.Errorf("%s: %v", q, qerr)
+	}
+	u := []int{}
+	if res != nil {
+		for _, e := range res.Events {
+			i, ok := byId[fmt.Sprintf("%d|%s", e.Timestamp, e.Message)]
+			if !ok {
+				return nil, fmt.Errorf("%s returned an event that was not written: ts=%d msg=%q", q, e.Timestamp, e.Message)
+			}
+			u = append(u, i)
+		}
+	}
+	if st.unf == nil {
+		st.unf = map[string][]int{}
+	}
+	st.unf[tags] = u
+	return u, nil
 }
 
 func evKey(evs []Ev) string { return fmt.Sprintf("%v", evs) }
@@ -324,6 +363,13 @@ func queryCase(st *store, rp Replay) (*Case, error) {
 		if viol == nil {
 			viol = &Violation{Class: class, Detail: detail}
 		}
+	}
+	unf, uerr := st.unfiltered(tags, rp.Events)
+	if uerr != nil {
+		return nil, uerr
+	}
+	if len(unf) != len(rp.Events) {
+		fail("query-unfiltered-not-the-written-events", fmt.Sprintf("SELECT FROM {%s} LIMIT 10000 returns %d events (%v), %d were written and are reported readable", tags, len(unf), unf, len(rp.Events)))
 	}
 	q := "SELECT FROM {" + tags + "} WHERE " + rp.Text + " LIMIT 10000"
 	exp, perr := lql.ParseExpr(rp.Text)
@@ -385,20 +431,48 @@ func queryCase(st *store, rp Replay) (*Case, error) {
 		}
 		ret = GSome(GList(it))
 		if evaluable {
+			// exactly those events of the unfiltered result (same partition, no WHERE, no RANGE) for which the
+			// expression is true, in that order -- whatever their timestamps are
 			var want []int
-			for i, e := range rp.Events {
-				if evalExpr(exp, parseTime, e) {
+			for _, i := range unf {
+				if evalExpr(exp, parseTime, rp.Events[i]) {
 					want = append(want, i)
 				}
 			}
 			if fmt.Sprint(got) != fmt.Sprint(want) {
-				g2 := append([]int{}, got...)
+				g2, w2 := append([]int{}, got...), append([]int{}, want...)
 				sort.Ints(g2)
+				sort.Ints(w2)
 				cls := "query-filter-differs"
-				if fmt.Sprint(g2) == fmt.Sprint(want) {
+				if fmt.Sprint(g2) == fmt.Sprint(w2) {
 					cls = "query-order-changed"
 				}
-				fail(cls, fmt.Sprintf("%s: returned events %v, the documented meaning selects %v", q, got, want))
+				detail := fmt.Sprintf("%s: returned events %v, the documented meaning selects %v of the unfiltered result %v", q, got, want, unf)
+				inGot := map[int]bool{}
+				for _, i := range got {
+					inGot[i] = true
+				}
+				for _, i := range want {
+					if !inGot[i] {
+						detail += fmt.Sprintf("; missing e.g. event %d (ts=%d msg=%q), which the unfiltered SELECT returns and for which the expression is true", i, rp.Events[i].Ts, rp.Events[i].Msg)
+						break
+					}
+				}
+				// the repaired defect, named narrowly (a return is a VIOLATION of this class): nothing differs except that
+				// events dated BEFORE time.Time{}.UnixNano() (the earlier model.MinTimestamp, not the least int64) are missing
+				var want2 []int
+				below := 0
+				for _, i := range want {
+					if rp.Events[i].Ts < tsLow {
+						below++
+					} else {
+						want2 = append(want2, i)
+					}
+				}
+				if below > 0 && fmt.Sprint(got) == fmt.Sprint(want2) {
+					cls = "query-where-drops-ts-below-min-timestamp"
+				}
+				fail(cls, detail)
 			}
 			cs.NonTrivial = len(want) > 0 && len(want) < len(rp.Events)
 		} else if perr == nil {
@@ -485,6 +559,51 @@ var corpus = []Replay{
 	{Kind: "query", Text: `msg CONTAINS "zzz" AND msg LIKE "[a"`, Events: []Ev{{Ts: 1, Msg: "a zzz b"}, {Ts: 2, Msg: "abc"}, {Ts: 3, Msg: "zzz [a"}}},
 }
 
+// events dated before 1970 (negative timestamps: the api timestamp is a signed int64), around 0 and at the ends of
+// the range the code calls [model.MinTimestamp, model.MaxTimestamp]: a SELECT with WHERE and without RANGE must
+// return every one of them for which the expression is true
+var tsEvents = []Ev{
+	{Ts: tsLow, Msg: "alpha lowest #0", Fields: [][2]string{{"lvl", "err"}}},
+	{Ts: tsLow + 1, Msg: "beta low #1", Fields: [][2]string{{"lvl", "err"}}},
+	{Ts: -86400 * 1000000000, Msg: "alpha old #2", Fields: [][2]string{{"lvl", "err"}}},
+	{Ts: -2, Msg: "beta #3", Fields: [][2]string{{"lvl", "warn"}}},
+	{Ts: -1, Msg: "alpha just before the epoch #4", Fields: [][2]string{{"lvl", "err"}}},
+	{Ts: 0, Msg: "alpha epoch #5", Fields: [][2]string{{"lvl", "err"}}},
+	{Ts: 1, Msg: "beta #6", Fields: [][2]string{{"lvl", "err"}}},
+	{Ts: 5, Msg: "alpha new #7"},
+	{Ts: 1552307695000000000, Msg: "alpha now #8", Fields: [][2]string{{"lvl", "warn"}}},
+	{Ts: 9223372036854775806, Msg: "beta high #9", Fields: [][2]string{{"lvl", "err"}}},
+	{Ts: 9223372036854775807, Msg: "alpha highest #10", Fields: [][2]string{{"lvl", "err"}}},
+}
+
+// time.Time{}.UnixNano(): what model.MinTimestamp was before it became math.MinInt64 (the lower end of the range a SELECT
+// without RANGE is evaluated on); the boundary stays in the stores, events below it must be returned
+const tsLow = int64(-6795364578871345152)
+
+var tsQueries = []string{`msg prefix "alpha"`, `fields:lvl = err`, `ts < 1`, `NOT msg contains "beta"`, `ts <= 0 AND msg contains "a"`,
+	`ts >= 0 OR fields:lvl = warn`, `msg contains "#"`, `NOT (ts > 5) AND upper(fields:lvl) = "ERR"`, `msg suffix "#0" OR msg suffix "#10" OR ts < 0`}
+
+// the same with events dated before the earlier model.MinTimestamp, down to the least int64 (the repaired defect
+// where-drops-ts-below-min-timestamp: the unfiltered SELECT returned them, a SELECT with WHERE and without RANGE did not)
+var tsBelowEvents = []Ev{
+	{Ts: -9223372036854775808, Msg: "alpha least #0", Fields: [][2]string{{"lvl", "err"}}},
+	{Ts: tsLow - 1, Msg: "alpha below #1", Fields: [][2]string{{"lvl", "err"}}},
+	{Ts: tsLow, Msg: "alpha lowest #2", Fields: [][2]string{{"lvl", "err"}}},
+	{Ts: -1, Msg: "beta #3", Fields: [][2]string{{"lvl", "err"}}},
+	{Ts: 3, Msg: "alpha #4"},
+}
+
+func tsCases() []Replay {
+	var out []Replay
+	for _, q := range tsQueries {
+		out = append(out, Replay{Kind: "query", Text: q, Events: tsEvents})
+	}
+	for _, q := range []string{`msg prefix "alpha"`, `fields:lvl = err`, `NOT msg contains "beta"`, `msg contains "beta" OR ts >= 3`} {
+		out = append(out, Replay{Kind: "query", Text: q, Events: tsBelowEvents})
+	}
+	return out
+}
+
 const flushDeadline = 30 * time.Second
 
 func main() {
@@ -564,6 +683,12 @@ func main() {
 				return err
 			}
 		}
+		// ---- timestamps: WHERE without RANGE over events dated before 1970, around 0 and at both ends of the range
+		for _, rp := range tsCases() {
+			if err := run(rp); err != nil {
+				return err
+			}
+		}
 		c.Note("reject stream", fmt.Sprintf("%d unevaluable conditions x %d shapes (+%d controls) as where cases, %d of them end to end", len(rejectBad), len(rejectShapes), len(rejectShapes), len(rejQuery)))
 		base := int64(1552307695000000000)
 		// ---- where: structured stream
@@ -633,16 +758,30 @@ func main() {
 			}
 		}
 		// ---- query
-		nstores := 4
+		nstores := 6
 		var stores [][]Ev
+		// stores on different parts of the time axis: now, straddling 0, well before 1970, next to the lower end of the
+		// default range, next to the upper end
+		storeBases := []int64{base, -30, -86400 * 1000000000 * 365, tsLow, 9223372036854775807 - 200}
 		for i := 0; i < nstores; i++ {
 			r := c.Rng.Fork()
-			stores = append(stores, genStore(r, []int64{base}, r.PickInt(12, 20, 30)))
+			b := storeBases[i%len(storeBases)]
+			if i >= len(storeBases) {
+				b = storeBases[r.Intn(len(storeBases))]
+			}
+			stores = append(stores, genStore(r, []int64{b}, r.PickInt(12, 20, 30)))
 		}
 		for i := 0; i < c.N(100); i++ {
 			r := c.Rng.Fork()
 			evs := stores[r.Intn(nstores)]
 			tsPool := []int64{evs[0].Ts, evs[len(evs)/2].Ts, evs[len(evs)-1].Ts}
+			if evs[0].Ts < 0 {
+				// a negative number is not a time literal of the language: compare with literals around 0 and the store's upper part
+				tsPool = []int64{0, 5, 30}
+				if last := evs[len(evs)-1].Ts; last >= 0 {
+					tsPool = append(tsPool, last)
+				}
+			}
 			g := &gen{r: r, tsPool: tsPool, kinds: map[string]bool{}, edge: r.Chance(1, 8), maxNest: 2, evs: evs}
 			text := g.expr(r.PickInt(0, 1, 2, 3))
 			if err := run(Replay{Kind: "query", Text: text, Events: evs}); err != nil {
